@@ -104,6 +104,7 @@ static void h_op(void)
     p += sprintf(p, "ok ");
     for (i = 0; i < m; i++) p += sprintf(p, "%s%" PRId64, i ? "," : "", deal[i]);
     h_out("%s", buf); free(buf); free(deal);
+  } else if (!strcmp(op, "int64")) { h_out("ok %" PRId64, esl_rand64_int64(R64));
   } else if (!strcmp(op, "dbl64"))     { h_out("ok %s", h_dbits(esl_rand64_double(R64)));
   } else if (!strcmp(op, "dblclosed")) { h_out("ok %s", h_dbits(esl_rand64_double_closed(R64)));
   } else if (!strcmp(op, "dblopen"))   { h_out("ok %s", h_dbits(esl_rand64_double_open(R64)));
